@@ -131,7 +131,7 @@ Opt(n) ==
            IF n = 2 THEN {Fam({2}, 0, "any", {FALSE}, "none", {"none", "scalar"}, 100000)}
            ELSE IF n = 3 THEN {Fam({2}, 0, "any", {FALSE}, "all", {"none"}, 100000)} ELSE {}
       [] Tier = "quick" ->
-           CASE n = 2 -> {Fam({1, 2}, 3, "any", {FALSE}, "any", B1All \ {"last"}, 100000)}
+           CASE n = 2 -> {Fam({1, 2}, 1, "any", {FALSE}, "any", B1All \ {"last"}, 100000)}
              [] n = 3 -> {Fam({1, 2}, 1, "any", {FALSE}, "all", {"none"}, 100000)}
              [] n = 4 -> {Fam({2}, 0, "spin", {FALSE}, "all", {"none"}, 100000)}
              [] OTHER -> {}
